@@ -21,6 +21,8 @@ import (
 	"github.com/mandykoh/prism/ciexyy"
 	"github.com/mandykoh/prism/ciexyz"
 	"github.com/mandykoh/prism/linear"
+	"github.com/mandykoh/prism/meta"
+	"github.com/mandykoh/prism/meta/icc"
 
 	"verifharness/internal/core"
 	"verifharness/internal/imggen"
@@ -86,6 +88,9 @@ type c11Shared struct {
 	profiles [][]byte
 	srcImg   *image.NRGBA
 	ycc      *image.YCbCr
+	// objects shared by all goroutines of a trial (target shared-objects)
+	sharedMD   []*meta.Data
+	sharedProf []*icc.Profile
 }
 
 func newC11Shared() *c11Shared {
@@ -121,6 +126,14 @@ func newC11Shared() *c11Shared {
 	}
 	rng := core.NewRNG(1, "c11shared")
 	sh.profiles = [][]byte{structuredProfile(rng, 0), structuredProfile(rng, 4)}
+	for k := 0; k < 80; k++ {
+		prof := structuredProfile(rng, k%5)
+		pb, _ := imggen.PNGSpec{W: uint32(3 + k), H: 2, Depth: 8, ColorType: 2, ICC: &imggen.PNGICC{Name: "s", Profile: prof, Level: 6}, IDAT: []byte{1}}.Build()
+		res := loadWith("autometa", bytes.NewReader(pb))
+		sh.sharedMD = append(sh.sharedMD, res.MD)
+		p, _, _ := readProfile(bytes.NewReader(prof))
+		sh.sharedProf = append(sh.sharedProf, p)
+	}
 	sh.srcImg = image.NewNRGBA(image.Rect(0, 0, 19, 13))
 	rng.Fill(sh.srcImg.Pix)
 	sh.ycc = image.NewYCbCr(image.Rect(0, 0, 18, 11), image.YCbCrSubsampleRatio420)
@@ -234,6 +247,43 @@ func c11Step(target string, g, it int, sh *c11Shared) uint64 {
 		dst8 := image.NewRGBA(r)
 		s.EncodeImage(dst8, src, par)
 		h = mix(h, hashImage(dst8))
+	case target == "images-wide":
+		// many workers per call: with 64 goroutines several thousand workers are requested at once
+		// (a process-wide worker budget, pool or semaphore is under pressure only here)
+		if it%25 != 0 {
+			return 0
+		}
+		s := libSpaces[(g+it/25)%len(libSpaces)]
+		par := []int{16, 40, 64, 129}[(g+it/25)%4]
+		r := image.Rect(0, 0, 5, 70)
+		src := image.NewNRGBA64(r)
+		for i := range src.Pix {
+			src.Pix[i] = byte(i*11 + g*5 + it)
+		}
+		dst := image.NewRGBA64(r)
+		s.EncodeImage(dst, src, par)
+		h = hashImage(dst)
+		h = mix(h, hashImage(prism.ConvertImageToRGBA(src, par)))
+	case target == "shared-objects":
+		// one metadata object / one parsed profile used by all goroutines at once, first use included
+		// (the objects are created before the goroutines start and nobody has asked them anything)
+		if it%5 != 0 {
+			return 0
+		}
+		k := (it / 5) % len(sh.sharedMD)
+		if md := sh.sharedMD[k]; md != nil {
+			raw, _ := md.ICCProfileData()
+			h = mix(h, fnv64(raw))
+			if p, err := md.ICCProfile(); err == nil && p != nil {
+				d, _ := p.Description()
+				h = mix(h, fnv64([]byte(d)))
+				h = mix(h, uint64(p.Header.ProfileSize))
+			}
+		}
+		if p := sh.sharedProf[k%len(sh.sharedProf)]; p != nil {
+			d, _ := p.Description()
+			h = mix(h, fnv64([]byte(d)))
+		}
 	case target == "hash-transform":
 		if it%50 != 0 {
 			return 0
@@ -302,7 +352,7 @@ func float32bits(f float32) uint32 {
 }
 
 var c11Targets = []string{"srgb.from16", "srgb.to16", "srgb.both", "adobergb.from16", "adobergb.to16", "adobergb.both", "prophotorgb.from16", "prophotorgb.to16", "prophotorgb.both",
-	"displayp3", "colors", "tables8", "images", "images-inplace", "images-rgba64", "hash-transform", "convert", "adapt", "loaders", "icc", "mixed"}
+	"displayp3", "colors", "tables8", "images", "images-inplace", "images-rgba64", "images-wide", "shared-objects", "hash-transform", "convert", "adapt", "loaders", "icc", "mixed"}
 
 func c11Lazy(t string) bool {
 	return strings.Contains(t, ".from16") || strings.Contains(t, ".to16") || strings.Contains(t, ".both") || t == "displayp3" || t == "colors" || t == "mixed"
